@@ -28,10 +28,18 @@ import (
 )
 
 const (
-	verifDir = "/verif"
-	repoDir  = "/repo"
-	goBin    = "go1.26.8"
+	repoDir = "/repo"
+	goBin   = "go1.26.8"
 )
+
+// verifDir is where the machinery lives: /verif, or the snapshot of it a background run works in
+// (the check script passes its own location in DSIM_VERIF_DIR).
+var verifDir = func() string {
+	if d := os.Getenv("DSIM_VERIF_DIR"); d != "" {
+		return d
+	}
+	return "/verif"
+}()
 
 type violation struct {
 	Class  string          `json:"class"`
@@ -481,6 +489,11 @@ func check(prop, tier string) int {
 	workers := runtime.NumCPU()
 	if w := os.Getenv("DSIM_WORKERS"); w != "" {
 		workers, _ = strconv.Atoi(w)
+	}
+	if ws := os.Getenv("DSIM_WALL_S"); ws != "" { // a shorter exploration budget for sweeps over many properties
+		if n, err := strconv.Atoi(ws); err == nil && n > 0 {
+			bud.Wall = time.Duration(n) * time.Second
+		}
 	}
 	deadline := time.Now().Add(bud.Wall) // the exploration budget starts once the build is done
 
